@@ -12,9 +12,10 @@ PROPERTY_ID = 'C15'
 
 RULE = ('Hypothesis draws the state dimension d (1..4), snapshot count m (1..8, optionally with a duplicated snapshot), the '
         'number of modes p (1..4) with 1..4 basis functions each, mixed over all differentiable families (constant, identity, '
-        'monomial, Legendre, sin, cos, Gauss, periodic Gauss) with random parameters and coordinates; scalar function lists '
+        'monomial, Legendre, sin, cos, Gauss, periodic Gauss) with random parameters and coordinates, and over user-defined '
+        'Function subclasses R^d -> R that reduce over the whole point (sum of squares, radial Gauss, pair product, max-abs); scalar function lists '
         'and add_one for the coordinate-/function-major variants; every admissible single_core index; a second data set for '
-        'the Gram matrix (independent arrays, the same array twice, and overlapping lagged views of one trajectory); HOCUR with ranks >= m (hence >= the true ranks), repeats 1..3, multiplier 2..10. Oracle: the explicit '
+        'the Gram matrix (independent arrays, the same array twice, and overlapping lagged views of one trajectory); HOCUR with ranks >= m (hence >= the true ranks; as a number or a list, the list optionally re-used from an earlier call on rank-one data), repeats 1..3, multiplier 2..10. Oracle: the explicit '
         'loop Psi[i_1..i_p, j] = prod_k phi_k^{i_k}(x_j). Non-trivial: m = 1, a mode with a single function, mixed families, '
         'duplicated snapshots, add_one = False, or d = 1.')
 ASSUMPTIONS = [
@@ -26,10 +27,32 @@ ASSUMPTIONS = [
 ]
 
 FAMS = ['constant', 'identity', 'monomial', 'legendre', 'sin', 'cos', 'gauss', 'periodic_gauss']
+# user-defined basis functions R^d -> R ("all implemented basis functions should inherit from Function"): written the
+# way the documentation defines them, as maps of ONE point t (a vector of length d) to a number; they reduce over the
+# whole vector without an axis argument, so they are only correct when the library evaluates them point by point
+USER_FAMS = ['u_norm2', 'u_radial', 'u_pair', 'u_maxabs']
 
 
-def fn_spec(draw, d):
-    fam = draw(st.sampled_from(FAMS))
+class UserFunction(tdt.Function):
+    def __init__(self, kind, index=0):
+        super().__init__()
+        self.kind, self.index = kind, index
+
+    def __call__(self, t):
+        self.check_call_input(t)
+        t = np.asarray(t, dtype=float)
+        if self.kind == 'u_norm2':
+            return float(np.sum(t ** 2))
+        if self.kind == 'u_radial':
+            return float(np.exp(-0.5 * np.linalg.norm(t) ** 2))
+        if self.kind == 'u_pair':
+            return float(t[self.index] * t[(self.index + 1) % len(t)])
+        return float(np.max(np.abs(t)))
+
+
+
+def fn_spec(draw, d, user=True):
+    fam = draw(st.sampled_from(FAMS + (USER_FAMS[:] if user else [])))
     s = {'family': fam, 'index': draw(st.integers(0, d - 1))}
     if fam == 'monomial':
         s['exponent'] = draw(st.integers(0, 4))
@@ -45,6 +68,8 @@ def fn_spec(draw, d):
 
 def make_fn(s):
     fam, i = s['family'], s['index']
+    if fam in USER_FAMS:
+        return UserFunction(fam, i)
     if fam == 'constant':
         return tdt.ConstantFunction(i)
     if fam == 'identity':
@@ -66,6 +91,14 @@ def ref_value(s, x):
     """independent evaluation of a basis function at a single point x (vector)"""
     from numpy.polynomial import legendre as L
     fam, t = s['family'], x[s['index']]
+    if fam == 'u_norm2':
+        return sum(float(v) ** 2 for v in x)
+    if fam == 'u_radial':
+        return float(np.exp(-0.5 * sum(float(v) ** 2 for v in x)))
+    if fam == 'u_pair':
+        return float(x[s['index']]) * float(x[(s['index'] + 1) % len(x)])
+    if fam == 'u_maxabs':
+        return max(abs(float(v)) for v in x)
     if fam == 'constant':
         return 1.0
     if fam == 'identity':
@@ -138,6 +171,8 @@ def general_labels(case):
         lab.add('single_function_mode')
     if len({s['family'] for f in case['phi'] for s in f}) > 1:
         lab.add('mixed_families')
+    if any(s['family'] in USER_FAMS for f in case['phi'] for s in f):
+        lab.add('user_defined_function')
     if case.get('duplicate') and case['m'] >= 2:
         lab.add('duplicated_snapshot')
     if len(case['phi']) == 1:
@@ -269,7 +304,8 @@ def hocur_case(draw):
     phi = [[fn_spec(draw, d) for _ in range(draw(st.sampled_from([1, 2, 3, 3])))] for _ in range(p)]
     return {'d': d, 'm': m, 'phi': phi, 'seed': draw(gen.SEED), 'duplicate': draw(st.sampled_from([False, False, True])),
             'ranks_extra': draw(st.integers(0, 3)), 'repeats': draw(st.integers(1, 3)), 'multiplier': draw(st.sampled_from([2, 3, 10])),
-            'ranks_list': draw(st.booleans()), 'data_form': draw(st.sampled_from(['float', 'float', 'strided', 'fortran']))}
+            'ranks_list': draw(st.booleans()), 'reuse_ranks': draw(st.booleans()),
+            'data_form': draw(st.sampled_from(['float', 'float', 'strided', 'fortran']))}
 
 
 def body_hocur(case):
@@ -286,12 +322,19 @@ def body_hocur(case):
         assume(sv[0] > 0 and not np.any((sv > 1e-13 * sv[0]) & (sv < 1e-4 * sv[0])))
     r = case['m'] + case['ranks_extra']
     ranks = [1] + [r] * p + [1] if case['ranks_list'] else r
+    if case['ranks_list'] and case.get('reuse_ranks') and case['m'] >= 2:
+        # the same list object of requested ranks is used for an earlier call on data of rank one (all snapshots equal):
+        # the request "ranks >= true ranks" of the second call is the caller's list, whatever the first call adapted
+        x1 = np.repeat(x[:, :1], case['m'], axis=1)
+        tdt.hocur(x1, phi, ranks, repeats=case['repeats'], multiplier=case['multiplier'], progress=False)
     t = tdt.hocur(x.copy(), phi, ranks, repeats=case['repeats'], multiplier=case['multiplier'], progress=False)
     require_consistent(t, 'consistent')
     n = [len(f) for f in phi]
     require(t.row_dims == n + [case['m']] and t.col_dims == [1] * (p + 1), 'dims', 'hocur rows %s' % t.row_dims)
     close(dense.contract(t.cores).reshape(n + [case['m']]), want, 1e-7, 1e-3 + np.max(np.abs(want)), 'hocur_value', 'hocur reconstruction')
     lab = general_labels(case)
+    if case['ranks_list'] and case.get('reuse_ranks') and case['m'] >= 2:
+        lab.add('ranks_list_reused')
     lab.add('repeats%d' % case['repeats'])
     return lab
 
@@ -301,8 +344,9 @@ def nt(labels):
 
 
 SUBCHECKS = [
-    Sub('general', general_case(), body_general, nt, quick=400, thorough=4000, classes=['m1', 'd1', 'single_function_mode', 'mixed_families', 'duplicated_snapshot', 'p1', 'lagged_views']),
+    Sub('general', general_case(), body_general, nt, quick=400, thorough=4000, classes=['m1', 'd1', 'single_function_mode', 'mixed_families', 'duplicated_snapshot', 'p1', 'lagged_views', 'user_defined_function']),
     Sub('major', major_case(), body_major, nt, quick=400, thorough=4000, classes=['m1', 'd1', 'add_one_false', 'p1', 'duplicated_snapshot']),
     Sub('hocur', hocur_case(), body_hocur, nt, quick=300, thorough=3000, shards_quick=4,
-        classes=['m1', 'single_function_mode', 'mixed_families', 'duplicated_snapshot', 'repeats1', 'repeats3']),
+        classes=['m1', 'single_function_mode', 'mixed_families', 'duplicated_snapshot', 'repeats1', 'repeats3', 'ranks_list_reused',
+                 'user_defined_function']),
 ]
